@@ -96,15 +96,31 @@ func C05(o *world.Obs) *Result {
 			_ = last
 		}
 		problem := ""
+		validated := o.Validated304(ex) != nil
 		for _, v := range vs {
-			p := compareFields(v.Header, ex.Resp.Header)
+			want := v.Header
+			if fields, present, qualified := model.ParseCC(v.Header).NoCache(); present && qualified && !validated {
+				// unvalidated reuse: the named fields may (C02: must) be withheld
+				want = want.Clone()
+				got := ex.Resp.Header.Clone()
+				for _, f := range fields {
+					want.Del(f)
+					got.Del(f)
+				}
+				if p := compareFields(want, got); p == "" {
+					problem = ""
+					break
+				} else {
+					problem = p + " (version " + v.Why + ")" // the latest version's report is the most telling
+				}
+				continue
+			}
+			p := compareFields(want, ex.Resp.Header)
 			if p == "" {
 				problem = ""
 				break
 			}
-			if problem == "" {
-				problem = p + " (version " + v.Why + ")"
-			}
+			problem = p + " (version " + v.Why + ")" // the latest version's report is the most telling
 		}
 		if problem != "" {
 			r.Fail("C05", "header-differs", ex.Idx, "header fields served from the store differ from the origin's: %s; %s", problem, SummarizeExchange(o, ex))
